@@ -1,8 +1,9 @@
 (* Model driver of the ownership world (properties C05 and C06; coq/Own/World.v).
    One case line = one program:   <kind> <oracle> ; op ; op ; ...
      kind    any word (own / dupi / ord ...; used for the histogram only)
-     oracle  re=-   or   re=<pat>:<flags>:<n>,...   blocks pcre_compile leaves allocated for
-             (pattern hex | N, flag bits); calibrated by the check against the running library
+     oracle  re=-   or   re=<pat>:<flags>:<n>:<sig>,...   for (pattern hex | N, flag bits): n = blocks
+             pcre_compile leaves allocated, sig = one 0/1 per probe subject of the harness (does the
+             compiled pattern match it); calibrated by the check against the running pcre library
    Operations (arguments blank-separated; h = handle number, _ = NULL, texts in hex, N = NULL text):
      obj | str T | ustr T | mbuff T | pair K V | tok T | url T | re T | cont L|V|M a|l|d
      dup h | done h | init h | del h | comp a b | type h | dump h | dumpall | delall
@@ -11,6 +12,12 @@
      lappend c h | lprepend c h | linsert c h | linsert_at c h idx | lremove c p | lremove_at c idx
      lreverse c | vinsert c h | vremove c p | mset m k v | mremove m k | mkeys m d | mvalues m d
      mpairs m d | toarray c | iter c | far (harness allocator only)
+     msetp m p     SPIF_MAP_SET(m, pair, NULL), the pair form
+     msetown m k   SPIF_MAP_SET(m, k, v) with v the value the map itself stores under k (no entry: no call)
+     msetownp m k  SPIF_MAP_SET(m, e, NULL) with e the map's own entry for k
+     query c h     count, get, contains, find, index / map get, has_key, has_value with probe h: result ok
+   Read-back of a regexp: r:<pattern>:<flag bits>:<sig>, sig = what the object MATCHES (the model has the
+   value (pattern, flags); the signature is the oracle's for that value, all 0 when nothing compiles).
    Output: one token <result>/<ledger> per operation (ledger = live blocks since program start);
    a fault anywhere prints FAULT:<kind> only. *)
 
@@ -24,6 +31,18 @@ let zint s = z_of_int (int_of_string s)
 let cls_c = function Arr -> "a" | LL -> "l" | DL -> "d"
 let if_c = function IList -> "L" | IVector -> "V" | IMap -> "M"
 
+(* the oracle table of the case being run *)
+let cur_table : (string * int * int * string) list ref = ref []
+let nprobes = 12
+let re_sig (s : z list option) (f : z) : string =
+  match s with
+  | None -> String.make nprobes '0'
+  | Some _ ->
+    let key = show_text s and fl = int_of_z f in
+    (match List.find_opt (fun (p, g, _, _) -> p = key && g = fl) !cur_table with
+     | Some (_, _, _, sg) -> sg
+     | None -> failwith ("pcre-oracle-missing:" ^ key ^ ":" ^ string_of_int fl))
+
 let rec show_obj (o : obj) : string =
   match o with
   | OObj _ -> "o"
@@ -33,7 +52,7 @@ let rec show_obj (o : obj) : string =
   | OPair (k, v) -> "p(" ^ show_opt k ^ "," ^ show_opt v ^ ")"
   | OTok (a, b, c) -> "t(" ^ show_opt a ^ "," ^ show_opt b ^ "," ^ show_opt c ^ ")"
   | OUrl (s, cs) -> "U(" ^ show_text s ^ ";" ^ String.concat "," (List.map show_opt cs) ^ ")"
-  | ORegexp (s, f, _) -> "r:" ^ show_text s ^ ":" ^ string_of_int (int_of_z f)
+  | ORegexp (s, f, _) -> "r:" ^ show_text s ^ ":" ^ string_of_int (int_of_z f) ^ ":" ^ re_sig s f
   | OCont (i, c, _, _, items) -> if_c i ^ cls_c c ^ "[" ^ String.concat "," (List.map show_opt items) ^ "]"
   | OIter (c, _) -> "i" ^ cls_c c
   | ORaw -> "raw"
@@ -97,12 +116,16 @@ let parse_op (toks : string list) : op =
   | ["vinsert"; c; h] -> VInsert (hnd c, hnd h)
   | ["vremove"; c; p] -> VRemove (hnd c, hnd p)
   | ["mset"; m; k; v] -> MSet (hnd m, hnd k, hnd v)
+  | ["msetp"; m; p] -> MSetPair (hnd m, hnd p)
+  | ["msetown"; m; k] -> MSetOwn (hnd m, hnd k, false)
+  | ["msetownp"; m; k] -> MSetOwn (hnd m, hnd k, true)
   | ["mremove"; m; k] -> MRemove (hnd m, hnd k)
   | ["mkeys"; m; d] -> MKeys (hnd m, hopt d)
   | ["mvalues"; m; d] -> MValues (hnd m, hopt d)
   | ["mpairs"; m; d] -> MPairs (hnd m, hopt d)
   | ["toarray"; c] -> ToArray (hnd c)
   | ["iter"; c] -> Iterator (hnd c)
+  | ["query"; c; h] -> Query (hnd c, hnd h)
   | _ -> failwith ("bad-op:" ^ String.concat " " toks)
 
 (* split a token list at ";" *)
@@ -113,22 +136,23 @@ let split_ops (toks : string list) : string list list =
     | x :: t -> go (x :: cur) acc t in
   go [] [] toks
 
-let parse_oracle (s : string) : (string * int * int) list =
-  (* re=<pat>:<flags>:<n>,... *)
+let parse_oracle (s : string) : (string * int * int * string) list =
+  (* re=<pat>:<flags>:<n>:<sig>,... *)
   if String.length s < 3 || String.sub s 0 3 <> "re=" then failwith "oracle";
   let body = String.sub s 3 (String.length s - 3) in
   if body = "-" then [] else
   List.map (fun e -> match String.split_on_char ':' e with
-      | [p; f; n] -> (p, int_of_string f, int_of_string n)
+      | [p; f; n; sg] -> (p, int_of_string f, int_of_string n, sg)
       | _ -> failwith "oracle-entry") (String.split_on_char ',' body)
 
 let run_case = function
   | _kind :: oracle :: rest ->
     let table = parse_oracle oracle in
+    cur_table := table;
     let pcre (pat : z list option) (flags : z) : z =
       let key = show_text pat and f = int_of_z flags in
-      (match List.find_opt (fun (p, fl, _) -> p = key && fl = f) table with
-       | Some (_, _, n) -> z_of_int n
+      (match List.find_opt (fun (p, fl, _, _) -> p = key && fl = f) table with
+       | Some (_, _, n, _) -> z_of_int n
        | None -> failwith ("pcre-oracle-missing:" ^ key ^ ":" ^ string_of_int f)) in
     (* `far` only moves the harness's allocator (the next block lies 2^31 bytes higher); the
        model's allocator is monotone anyway, so it is a no-op here *)
